@@ -42,7 +42,7 @@ RULE = (
     "{C, E, never}; non-trivial = the source emitted >=1 element and (>=2 groups were emitted or a group expired before the source's "
     "terminal), for partition: >=1 element reached an output; distinct = (instance, timeline)"
 )
-BUDGET = {"quick": 180.0, "thorough": 2400.0}
+BUDGET = {"quick": 300.0, "thorough": 2400.0}
 
 
 # ------------------------------------------------------------------ catalogues
